@@ -362,6 +362,21 @@ fn check_direct(case: &SearchCase) -> Outcome {
             }
         };
         let si = &built.si;
+        // a search instance is reusable (the k-shortest-path algorithms run several searches on
+        // one): in half of the cases the same instance first answers a search to another
+        // destination, whose result is discarded - nothing of it may reach the judged search
+        let domain = if case.edge_oriented { case.spec.net.m() } else { case.spec.net.n() };
+        if (case.o + domain) % 2 == 0 && domain > 2 {
+            if let Some(d0) = case.d {
+                let other = (0..domain).map(|i| (d0 + 1 + i * 7) % domain).find(|x| *x != d0 && *x != case.o);
+                if let Some(other) = other {
+                    let mut pre = case.clone();
+                    pre.d = Some(other);
+                    let _ = run_search(&pre, si);
+                    o.label("instance-answered-another-destination-first");
+                }
+            }
+        }
         let res = match run_search(case, si) {
             RunOutcome::Done(Ok(r)) => r,
             RunOutcome::Done(Err(e)) => {
